@@ -40,6 +40,7 @@ from __future__ import annotations
 import logging
 import multiprocessing
 import os
+import sys
 from concurrent.futures import Future, ProcessPoolExecutor, as_completed
 from pathlib import Path
 
@@ -334,9 +335,18 @@ class Orchestrator:  # thailint: ignore[srp]
             List of violations found.
         """
         violations = []
-        for rule in rules:
-            rule_violations = self._safe_check_rule(rule, context)
-            violations.extend(rule_violations)
+        # Source files may hold integer literals longer than the interpreter's limit for
+        # int -> str conversion (e.g. a 5000-digit hex constant). Rules render expressions
+        # (ast.unparse, ast.dump, f-strings), which would raise ValueError and abort the whole
+        # run; lift the limit while rules analyze the file.
+        digit_limit = sys.get_int_max_str_digits()
+        sys.set_int_max_str_digits(0)
+        try:
+            for rule in rules:
+                rule_violations = self._safe_check_rule(rule, context)
+                violations.extend(rule_violations)
+        finally:
+            sys.set_int_max_str_digits(digit_limit)
         return violations
 
     def _safe_check_rule(self, rule: BaseLintRule, context: BaseLintContext) -> list[Violation]:
